@@ -11,7 +11,7 @@ From RT Require Import Model.StackTrace Model.StackProto Proofs.StackInvProofs P
 Import ListNotations.
 
 Theorem C10_snapshot : forall size_oracle attempts tabs scripts sched,
-  init_ok tabs -> Forall (fun s => forallb modelled s = true) scripts ->
+  init_ok tabs ->
   c10_ok (trace_of size_oracle attempts tabs scripts sched) = true.
 Proof. exact c10_all_traces. Qed.
 Print Assumptions C10_snapshot.
